@@ -33,8 +33,10 @@ func (zl *Ziplist) Next() []byte {
 	* 2^16-2 entries, this value is set to 2^16-1 and we need to traverse the
 	* entire list to know how many items it holds.*/
 	if zl.length == 65535 {
+		// an entry starts with its prevlen (1 byte < 254, or 0xFE + 4 bytes),
+		// the list is terminated by the zlend byte 0xFF
 		firstByte := zl.buf.ReadByte()
-		if firstByte != 0xFE {
+		if firstByte != 0xFF {
 			return ReadZiplistEntry2(zl.buf, firstByte)
 		}
 	} else {
